@@ -1,7 +1,7 @@
 //! System implementation.
 
 use std::cell::{Ref, RefCell, RefMut};
-use std::collections::HashMap;
+use std::collections::{HashMap, HashSet};
 use std::path::Path;
 use std::rc::Rc;
 
@@ -119,8 +119,10 @@ impl System {
 
         // cancel pending events (i.e. undelivered messages) from the crashed node
         let node_id = self.sim.lookup_id(node_name);
+        // events cancelled earlier (e.g. by a previous crash of this node) are returned again, skip them
+        let live_events: HashSet<u64> = self.sim.dump_events().iter().map(|e| e.id).collect();
         let cancelled = self.sim.cancel_and_get_events(|e| e.src == node_id);
-        for event in cancelled {
+        for event in cancelled.into_iter().filter(|e| live_events.contains(&e.id)) {
             cast!(match event.data {
                 MessageReceived {
                     id,
